@@ -179,6 +179,13 @@ class C07(object):
                             "tilt_x": rnd.choice([0.0, 0.01]), "tilt_y": rnd.choice([0.0, -0.02]), "tilt_z": 0.005,
                             "distance": 150000.0, "y_center": 1000.0, "z_center": 1100.0, "y_size": 50.0, "z_size": 50.0,
                             "o11": 1, "o12": 0, "o21": 0, "o22": rnd.choice([1, -1])}
+            if rnd.random() < 0.35:
+                # some grains of the list carry no position of their own (no "#translation:" line): they sit at the
+                # parameters' t_x, t_y, t_z, wherever the grains before them in the list are
+                desc["pars"].update({"t_x": rnd.choice([0.0, 55.0]), "t_y": rnd.choice([0.0, -120.5]), "t_z": rnd.choice([0.0, 31.25])})
+                desc["no_translation"] = [k for k in range(ngr) if rnd.random() < 0.4]
+                for k in desc["no_translation"]:
+                    desc["translations"][k] = [desc["pars"]["t_x"], desc["pars"]["t_y"], desc["pars"]["t_z"]]
             desc["tol"] = rnd.choice([0.1, 0.25, 0.4, 0.5])
             desc["basis_peaks"] = [[rnd.randrange(max(n, 1)) for _ in range(3)] for _ in range(ngr)]
             # the grains' names are the labels: 0..n-1, or what is left of a pruned / re-ordered grain list
@@ -473,7 +480,7 @@ class C07(object):
                     if np.linalg.det(u0) < 0:
                         u0 = u0 * np.array([[-1.0], [1.0], [1.0]])
                 rg.ubisread[names[j]] = np.ascontiguousarray(u0)
-                rg.translationsread[names[j]] = trans[gi]
+                rg.translationsread[names[j]] = None if gi in desc.get("no_translation", []) else trans[gi]
             rg.generate_grains()
             if desc.get("via_refinepositions") and not ah:
                 # the makemap story: positions are refined right after loading; the competing assignment this starts with is
